@@ -1,5 +1,5 @@
 #!/usr/bin/env python3
-"""seedsweep.py [--lanes N] [--only ID,ID,...] : regression sweep of the stored seeded changes against the registered checks.
+"""seedsweep.py [--lanes N] [--only ID,ID,... (seed names; merged into the existing SWEEP.json)] : regression sweep of the stored seeded changes against the registered checks.
 
 Every seeded/<id>/patch.diff is applied to a scratch worktree of /repo's HEAD (never to /repo itself), the quick tier of
 the check that is recorded as catching it (first "Cxx quick" entry of meta.json's caught_by, else the property's own
@@ -104,12 +104,15 @@ def main():
         t.join()
     shutil.rmtree(ROOT, ignore_errors=True)
     sh("git -C /repo worktree prune")
+    path = os.path.join(VERIF, "seeded", "SWEEP.json")
+    if only and os.path.isfile(path):  # a partial sweep replaces the entries of the seeds it ran, the others stay
+        done = {s["seed"] for s in results}
+        results += [s for s in json.load(open(path))["results"] if s["seed"] not in done]
     results.sort(key=lambda s: s["seed"])
     out = {"repo_head": head, "date": time.strftime("%Y-%m-%d"), "tier": "quick", "results": results,
            "summary": {k: sum(1 for s in results if s["outcome"] == k) for k in ("caught", "missed", "does-not-apply", "harness-error")}}
     out["summary"]["unexpected"] = sum(1 for s in results if not s.get("expected"))
-    if not only:
-        json.dump(out, open(os.path.join(VERIF, "seeded", "SWEEP.json"), "w"), indent=1)
+    json.dump(out, open(path, "w"), indent=1)
     print(json.dumps(out["summary"]))
 
 
